@@ -180,7 +180,7 @@ def gen_scale(rng, index):
 def gen_cases(tier, seed):
     for i in range(4 if tier == 'quick' else 64):
         yield gen_scale(random.Random(f'C15/scale/{seed}/{tier}/{i}'), i)
-    n = 1500 if tier == 'quick' else 16 * 5000
+    n = 2500 if tier == 'quick' else 16 * 5000
     for i in range(n):
         yield gen_one(random.Random(f'C15/{seed}/{tier}/{i}'), tier, i)
 
